@@ -135,8 +135,16 @@ def lift_conflict_block(repo, gen):
     a, z = src.line_of(t[ob].s), src.line_of(t[cb].e)
     out = f"""// GENERATED by /verif/tools/lift.py on every run -- do not edit.  BLOCK LIFT (not an extraction for Verus):
 // lines {a}-{z} of {rel} (sha256/16 {sha}), the `else` arm of `if actions.is_empty()` in
-// LRTable::calculate_reductions, copied verbatim into a method whose receiver/parameters are exactly the
+// LRTable::calculate_reductions, copied verbatim into methods whose receiver/parameters are exactly the
 // free variables of the range: {', '.join(declared)}.
+//
+// The statements are compiled TWICE, from the same text:
+//  * LiftCtx::conflict_block   against the REAL types (LRState, LRItem, Production, Terminal, Settings, Grammar);
+//    constructing those values costs CBMC about a minute per case (String-keyed BTreeMaps), so this copy is used for
+//    a few smoke cases only;
+//  * RecCtx::conflict_block    against field-compatible RECORD types declared below (same field names, same field
+//    types, plain data); this copy carries the exhaustive enumeration.  If the range ever reads a field that is not
+//    declared here the record copy stops compiling, which is exit 2 (undecided), never a pass.
 pub(super) struct LiftCtx<'g, 's> {{
     pub settings: &'s Settings,
     pub grammar: &'g Grammar,
@@ -157,6 +165,50 @@ impl<'g, 's> LiftCtx<'g, 's> {{
     /// the `then` arm, for completeness: `{then_body}`
     pub(super) fn no_conflict(actions: &mut Vec<Action>, new_reduce: Action) {{
         actions.push(new_reduce.clone());
+    }}
+}}
+
+pub(super) struct RecSettings {{
+    pub prefer_shifts: bool,
+    pub prefer_shifts_over_empty: bool,
+    pub parser_algo: ParserAlgo,
+}}
+pub(super) struct RecProd {{
+    pub prio: Priority,
+    pub assoc: Associativity,
+    pub nops: bool,
+    pub nopse: bool,
+    pub rhs: Vec<()>,
+}}
+pub(super) struct RecGrammar {{
+    pub productions: ProdVec<RecProd>,
+}}
+pub(super) struct RecTerm {{
+    pub idx: TermIndex,
+    pub assoc: Associativity,
+}}
+pub(super) struct RecState {{
+    pub max_prior_for_term: BTreeMap<TermIndex, Priority>,
+}}
+pub(super) struct RecItem {{
+    pub prod_len: usize,
+}}
+pub(super) struct RecCtx<'g, 's> {{
+    pub settings: &'s RecSettings,
+    pub grammar: &'g RecGrammar,
+}}
+impl<'g, 's> RecCtx<'g, 's> {{
+    #[allow(clippy::all)]
+    pub(super) fn conflict_block(
+        &self,
+        state: &RecState,
+        item: &RecItem,
+        prod: &RecProd,
+        follow_term: &RecTerm,
+        actions: &mut Vec<Action>,
+        new_reduce: Action,
+    ) {{
+{block_text}
     }}
 }}
 """
